@@ -65,6 +65,11 @@ CHECKS = {
     note=BASE + "half-move clock of an UnMove is always 0 by the header's contract and not modelled; the algorithm of Texel's generator itself is not modelled (its output is compared as a set with the proven oracle).",
     technique="Lean 4 proof (un-move oracle = relational predecessor specification) + set equality of RevMoveGen::genMoves with the compiled oracle in both modes + forward/backward predicates on the implementation (played move present; every listed un-move legal and leading back)",
     design="notes/C15.md"),
+ "C17": dict(
+    text="Lean theorems (Props/C17.lean, 19): san_roundtrip for short and long form and san_injective (no two legal moves share a short form) on a character-level model of moveToString/stringToMove, uci_roundtrip; parsers_total — index-level models of readFEN, stringToMove, uciStringToMove, trim, tokenize in which every s[i]/substr is a checked access never reach the out-of-bounds outcome; the PGN reader model never reaches it and its scanner terminates on every input; PGN round trip on a token-level model (partial: lifting to characters and the arena parser is differential only); repaired FEN counters in range (witnesses for the pinned reader).",
+    note=BASE + "memory safety of libstdc++ string operations is trusted; PGN reader recursion fuel not proved sufficient (driver reports if exhausted); known finding C17-pgn-nesting-stack (unbounded recursion on > 4 KB deeply nested PGN).",
+    technique="Lean 4 proof (SAN/UCI round trips, totality of index-level parser models) + line-by-line differential for all legal moves of generated positions + malformed byte streams on the ASan/UBSan build + PGN writer/reader round trips",
+    design="notes/C17.md"),
  "C18": dict(
     text="Lean theorems (Props/C18.lean, 16) on a byte-level model (book = List UInt8): probe_safe for arbitrary bytes and any random draw (result is none or a legal move), only_own_key for any file, bsearch_complete and positive_weight_reachable for sorted books, polyglot move codec round trip incl. castling, termination of the binary search, weight-sum bound for the repaired 64-bit arithmetic, witnesses for the three pre-fix defects. The polyglot hash key is tied by differential and an independent Python oracle only.",
     note=BASE + "the 781 polyglot random constants are regenerated from polyglot.cpp and compared on every run; the built-in book's table lookup is checked on the implementation only; quick tier needs the asan variant and sparse files up to 4 GiB.",
